@@ -19,6 +19,15 @@ FAR_PROB = 0.0
 # probability of a uniformly rescaled homogeneous net (all weights and weighted coordinates times 2^-40: the same geometry with
 # tiny weights) and of coordinates of magnitude 2^+-20
 SCALE_PROB = 0.06
+# the tiny-weight half of SCALE_PROB can be switched off separately: where the library compares stored (homogeneous) control
+# points with its ABSOLUTE control-point tolerance 1e-8 (loop closing in edge_curves, vertex matching), a net scaled by 2^-30
+# is by the library's own definition a single point, and the property (C20: "points within the control-point tolerance are
+# one vertex") says so too
+TINY_WEIGHTS = True
+# probability that all directions of a surface/volume get the same basis (then make_impl may pass one instance several times)
+SAME_BASIS_PROB = 0.08
+# probability of an object that is tiny compared with its distance from the origin (coordinates ~2^24, extent ~64)
+OFFSET_PROB = 0.05
 
 
 def gen_obj(rng, pardim=None, dim=None, rational=None, kinds=None, pmax=None, nint_max=None, big_periodic=False, dir_kinds=None, multi=None):
@@ -37,6 +46,8 @@ def gen_obj(rng, pardim=None, dim=None, rational=None, kinds=None, pmax=None, ni
                     continue
                 break
         bases.append(b)
+    if pardim > 1 and rng.random() < SAME_BASIS_PROB:
+        bases = [dict(bases[0]) for _ in range(pardim)]
     if FAR_PROB and rng.random() < FAR_PROB:
         for b_ in bases:
             k0_ = b_['knots'][0]
@@ -61,12 +72,15 @@ def gen_obj(rng, pardim=None, dim=None, rational=None, kinds=None, pmax=None, ni
     ctor = rng.choice(['raw'] * 6 + ['flatC', 'flatF', 'flatF', 'strided', 'list'])
     if not intcps and SCALE_PROB:
         r_ = rng.random()
-        if rational and r_ < SCALE_PROB:
+        if rational and r_ < SCALE_PROB and TINY_WEIGHTS:
             lam_ = Fr(1, 2 ** rng.choice([30, 40]))
             cps = [[c_ * lam_ for c_ in pt] for pt in cps]
         elif r_ < 2 * SCALE_PROB:
             mag_ = Fr(2) ** rng.choice([20, -20, 12])
             cps = [[c_ * mag_ if (not rational or j_ < dim) else c_ for j_, c_ in enumerate(pt)] for pt in cps]
+    if not intcps and OFFSET_PROB and rng.random() < OFFSET_PROB:
+        off_ = [Fr(2 ** 24), Fr(-(2 ** 23)), Fr(2 ** 24) + 2 ** 22][:dim]
+        cps = [[(c_ + off_[j_] * (pt[-1] if rational else 1)) if j_ < dim else c_ for j_, c_ in enumerate(pt)] for pt in cps]
     return dict(bases=bases, cps=cps, dim=dim, rational=bool(rational), intcps=intcps, ctor=ctor)
 
 
@@ -113,6 +127,14 @@ def make_impl(spec):
     from splipy import BSplineBasis, Curve, Surface, Volume
     from splipy.splineobject import SplineObject
     bs = [BSplineBasis(b['order'], [float(x) for x in b['knots']], b['periodic']) for b in spec['bases']]
+    # directions with identical bases are given the SAME basis instance in half of the cases (Surface(b, b, cps)):
+    # the object must not let one direction's later changes leak into the other
+    for i_ in range(1, len(bs)):
+        for j_ in range(i_):
+            sb_i, sb_j = spec['bases'][i_], spec['bases'][j_]
+            if sb_i['order'] == sb_j['order'] and sb_i['periodic'] == sb_j['periodic'] and list(sb_i['knots']) == list(sb_j['knots']) \
+                    and (hash((len(spec['cps']), i_, j_, sb_i['order'])) % 2 == 0):
+                bs[i_] = bs[j_]
     shape = [nfun(b) for b in spec['bases']]
     ncomp = spec['dim'] + (1 if spec['rational'] else 0)
     if spec.get('intcps') and all(Fr(x).denominator == 1 and abs(Fr(x)) < 2 ** 31 for pt in spec['cps'] for x in pt):
